@@ -347,7 +347,7 @@ func cmdTCP(args []string) error {
 					if len(b) == 0 {
 						return "-"
 					}
-					return hx(b)
+					return hxFull(b)
 				}
 				results[i] = fmt.Sprintf("%s\t%s\t%s\t%s\t%s", f[0], st, h(rx), ws, h(prx))
 			}
